@@ -22,7 +22,8 @@ TRUSTED = ["models Template.lean / Printer.lean hand-written; tied to the real p
 def gen_pairs(rng, n, tier):
     for _ in range(n):
         x = trees.gen_pat(rng, rng.randint(0, 3))
-        tags = [trees.gen_tag(rng, 0, ctx=None) for _ in range(rng.randint(1, 5))]
+        # (mostly 1–5 piped tags; now and then a long list — what a pipe list means does not depend on its length)
+        tags = [trees.gen_tag(rng, 0, ctx=None) for _ in range(rng.randint(1, 5) if rng.random() < 0.92 else rng.randint(8, 13))]
         for t in tags:
             t["ctx"] = None
         if rng.random() < 0.3:
